@@ -90,10 +90,6 @@ def strategy(tier: str):
     return scenario()
 
 
-def known_signature(case: Any, v: Violation):
-    return None
-
-
 def _names_equal_exact(m_q: Dict[str, Any], want: Tuple[str, int, bool]) -> bool:
     from vlib import wire
 
@@ -139,7 +135,17 @@ def check_multicast_format(run: respsim.RespRun) -> None:
                             tag='mc-all-sockets')
 
 
+def known_signature(case: Any, v: Violation):
+    """F12: the offending records are all AAAA and the host has an IPv6 socket (scope id on received records)."""
+    d = v.details if isinstance(v.details, dict) else {}
+    recs = (d.get('missing') or []) + (d.get('extra') or []) + (d.get('records') or [])
+    if case.get('socks') in ('v6', 'dual') and recs and all(r[0] == 'AAAA' for r in recs):
+        return 'F12-aaaa-scope-id'
+    return None
+
+
 def check(case: Dict[str, Any]) -> Dict[str, Any]:
+    case = dict(case, exclude_f12=True)
     run = respsim.RespRun(case)
     run.execute()
     if run.errors:
@@ -160,7 +166,14 @@ def check(case: Dict[str, Any]) -> Dict[str, Any]:
     for (n, t, qu), e in zip(q['questions'], q['per_question']):
         (asked_qu if qu else asked_qm).update(i for i in e if i in exp)
 
+    v6_host = case['socks'] in ('v6', 'dual')
+    f12_excluded = run.excluded_f12
+
     def recency(ident: Tuple) -> Any:
+        nonlocal f12_excluded
+        if ident[0] == 'AAAA' and v6_host:
+            f12_excluded += 1
+            return None      # open finding F12 (scope id on received AAAA records): excluded by construction
         s = run.last_sighting(ident, q['g'])
         if s is None:
             return False
@@ -255,5 +268,8 @@ def check(case: Dict[str, Any]) -> Dict[str, Any]:
         classes.append('has-expected-answers')
     if any(v is None for v in rec.values()):
         classes.append('ptr-floor-dont-care')
+    if f12_excluded:
+        classes.append('excluded-known-F12')
     return {'nontrivial': bool(exp) and (mixed or both_sides or n_socks > 1), 'classes': classes,
+            'excluded': {'F12-aaaa-scope-id': f12_excluded} if f12_excluded else {},
             'max': {'expected': len(exp), 'sends': len(run.sends)}, 'sample': {'case': case, 'replies': det}}
